@@ -26,7 +26,8 @@ DATA.write_text(json.dumps(out, indent=1, sort_keys=True))
 from bvstatic.frozen import formula_fingerprints, FP_DATA
 fp = {}
 for rel, q in TARGETS + [("beyond/frames/iau2010.py", "_xys"), ("beyond/frames/iau2010.py", "precesion_nutation"), ("beyond/frames/iau1980.py", "rate"), ("beyond/frames/iau2010.py", "rate"),
-                         ("beyond/dates/date.py", "Timescale._scale_tdb_minus_tt"), ("beyond/frames/lagrange.py", "LagrangePropagator.propagate")]:
+                         ("beyond/dates/date.py", "Timescale._scale_tdb_minus_tt"), ("beyond/frames/lagrange.py", "LagrangePropagator.propagate"),
+                         ("beyond/io/tle.py", "_float"), ("beyond/io/tle.py", "_unfloat"), ("beyond/io/tle.py", "Tle._checksum")]:
     setter = q.endswith(":setter")
     f = repo.func(rel, q.replace(":setter", ""), setter=setter)
     fp[f"{rel}::{q}"] = formula_fingerprints(f.node)
